@@ -324,4 +324,128 @@ theorem server_accepts_iff_valid_partial (cfg : SrvCfg) (env : SrvEnv) (data : B
       unfold offersOk at this
       exact this
 
+/-! ### client: opens exactly for valid responses -/
+
+macro "cstage_err" h:ident : tactic =>
+  `(tactic| (repeat' (first | split at $h:ident | (dsimp only at $h:ident; split at $h:ident))) <;>
+      first | (cases $h:ident; rfl) | (cases $h:ident))
+
+theorem cstageStatus_err {line : Bytes} {o : CliOut} (h : cstageStatus line = .error o) : o = .fail := by
+  unfold cstageStatus cbad at h; cstage_err h
+theorem cstageUpgrade_err {hs : List Hdr} {o : CliOut} (h : cstageUpgrade hs = .error o) : o = .fail := by
+  unfold cstageUpgrade cbad at h; cstage_err h
+theorem cstageConnection_err {hs : List Hdr} {o : CliOut} (h : cstageConnection hs = .error o) : o = .fail := by
+  unfold cstageConnection cbad at h; cstage_err h
+theorem cstageAccept_err {key : Bytes} {hs : List Hdr} {o : CliOut} (h : cstageAccept key hs = .error o) : o = .fail := by
+  unfold cstageAccept cbad at h; cstage_err h
+theorem cstageExtensions_err {cfg : CliCfg} {hs : List Hdr} {o : CliOut} (h : cstageExtensions cfg hs = .error o) :
+    o = .fail := by
+  unfold cstageExtensions cbad at h; cstage_err h
+theorem cstageProtocol_err {cfg : CliCfg} {hs : List Hdr} {o : CliOut} (h : cstageProtocol cfg hs = .error o) :
+    o = .fail := by
+  unfold cstageProtocol cbad at h; cstage_err h
+
+/-- the client chain stops only by failing the handshake (drop), never by an exception -/
+theorem cvalidate_error {cfg : CliCfg} {key line : Bytes} {hs : List Hdr} {o : CliOut}
+    (h : cvalidate cfg key line hs = .error o) : o = .fail := by
+  unfold cvalidate at h
+  simp only [bind_error] at h
+  rcases h with h | ⟨_, _, h⟩
+  · exact cstageStatus_err h
+  rcases h with h | ⟨_, _, h⟩
+  · exact cstageUpgrade_err h
+  rcases h with h | ⟨_, _, h⟩
+  · exact cstageConnection_err h
+  rcases h with h | ⟨_, _, h⟩
+  · exact cstageAccept_err h
+  rcases h with h | ⟨_, _, h⟩
+  · exact cstageExtensions_err h
+  rcases h with h | ⟨_, _, h⟩
+  · exact cstageProtocol_err h
+  · simp [pure, Except.pure] at h
+
+/-- the header block is valid UTF-8 (the inputs on which the eager `.decode("utf8")` of the log call does not raise) -/
+def HeadUtf8 (data : Bytes) : Prop :=
+  ∀ eoh, find crlfcrlf data = some eoh → utf8Valid (data.take (eoh + 4)) = true
+
+theorem client_opened_iff (cfg : CliCfg) (key data : Bytes) :
+    (client cfg key data).isOpened = true ↔
+      ∃ eoh line hs r, find crlfcrlf data = some eoh ∧ utf8Valid (data.take (eoh + 4)) = true ∧
+        parseHttpHeader (data.take (eoh + 4)) = some (line, hs) ∧ cvalidate cfg key line hs = .ok r := by
+  constructor
+  · intro h
+    unfold client at h
+    cases hf : find crlfcrlf data with
+    | none => simp [hf, CliOut.isOpened] at h
+    | some eoh =>
+      simp only [hf] at h
+      cases hu : utf8Valid (data.take (eoh + 4)) with
+      | false => simp [hu, CliOut.isOpened] at h
+      | true =>
+        simp only [hu, Bool.not_true, Bool.false_eq_true, if_false] at h
+        cases hp : parseHttpHeader (data.take (eoh + 4)) with
+        | none => simp [hp, CliOut.isOpened] at h
+        | some lh =>
+          obtain ⟨line, hs⟩ := lh
+          simp only [hp] at h
+          cases hv : cvalidate cfg key line hs with
+          | error o =>
+            rw [hv, cvalidate_error hv] at h
+            simp [CliOut.isOpened] at h
+          | ok r => exact ⟨eoh, line, hs, r, rfl, hu, hp, hv⟩
+  · rintro ⟨eoh, line, hs, r, hf, hu, hp, hv⟩
+    unfold client
+    simp [hf, hu, hp, hv, CliOut.isOpened]
+
+/-- **client_opens_iff_valid** (partial: for header blocks that are valid UTF-8 [F4], whose status code, when `int()` reads
+101 from it, is the literal `101`, and for clients whose request announced `factory.protocols` [no `onConnecting`
+override] — the excluded inputs are shown as `example`s below).  The client model completes the handshake exactly when the
+header block is complete and satisfies `ValidResponse` for the key this client sent. -/
+theorem client_opens_iff_valid_partial (cfg : CliCfg) (key data : Bytes)
+    (hproto : cfg.factoryProtocols = cfg.protocols) (hutf : HeadUtf8 data)
+    (hstrict : ∀ line hs, ParsedHead data line hs → StrictStatus line) :
+    (client cfg key data).isOpened = true ↔ ∃ line hs, ParsedHead data line hs ∧ ValidResponse cfg key line hs := by
+  rw [client_opened_iff]
+  constructor
+  · rintro ⟨eoh, line, hs, r, hfind, _, hparse, hv⟩
+    have wf := parse_wf hparse
+    have strict := hstrict line hs ⟨eoh, hfind, hparse⟩
+    obtain ⟨h1, h2, h3, h4, h5, h6⟩ := (cvalidate_ok _ _ _ _ _).1 hv
+    have he := (cstageExtensions_ok cfg hs r.2).1 h5
+    have hp := (cstageProtocol_ok cfg hs r.1).1 h6
+    refine ⟨line, hs, ⟨eoh, hfind, hparse⟩, ?_⟩
+    exact
+      { status := (cstageStatus_ok strict).1 h1
+        upgrade := (cstageUpgrade_ok wf).1 h2
+        connection := (cstageConnection_ok wf).1 h3
+        accept := (cstageAccept_ok wf key).1 h4
+        extensions := ⟨he.1, by unfold responseExtensionsOk; rw [he.2]; rfl⟩
+        protocol := ⟨hp.1, by
+          rcases hp.2 with ⟨h0, _⟩ | ⟨_, hm, _⟩
+          · exact .inl h0
+          · exact .inr (hproto ▸ hm)⟩ }
+  · rintro ⟨line, hs, ⟨eoh, hfind, hparse⟩, hvalid⟩
+    have wf := parse_wf hparse
+    have strict := hstrict line hs ⟨eoh, hfind, hparse⟩
+    have hext := hvalid.extensions.2
+    unfold responseExtensionsOk at hext
+    cases hl : cextLoop cfg (parseExtensions (value hs b!"sec-websocket-extensions")) false with
+    | none => rw [hl] at hext; cases hext
+    | some l =>
+      let sp := strip (value hs b!"sec-websocket-protocol")
+      refine ⟨eoh, line, hs, (if sp = [] then none else some sp, l), hfind, hutf eoh hfind, hparse, ?_⟩
+      apply (cvalidate_ok _ _ _ _ _).2
+      refine ⟨(cstageStatus_ok strict).2 hvalid.status, (cstageUpgrade_ok wf).2 hvalid.upgrade,
+        (cstageConnection_ok wf).2 hvalid.connection, (cstageAccept_ok wf key).2 hvalid.accept,
+        (cstageExtensions_ok cfg hs l).2 ⟨hvalid.extensions.1, hl⟩, ?_⟩
+      apply (cstageProtocol_ok cfg hs _).2
+      refine ⟨hvalid.protocol.1, ?_⟩
+      by_cases h0 : sp = []
+      · exact .inl ⟨h0, by simp [h0]⟩
+      · right
+        refine ⟨h0, ?_, by simp [h0, sp]⟩
+        rcases hvalid.protocol.2 with h | h
+        · exact absurd h h0
+        · exact hproto ▸ h
+
 end Abverif.Handshake
